@@ -139,23 +139,7 @@ theorem txExpire_RBody (cfg : Cfg) (b k ttl : Nat) : Rel RBody (txExpire cfg b k
 
 theorem emit_RBody (r : Reply) : Rel RBody (emit r) := Rel.modW _ fun _ => RBody.same rfl rfl rfl
 
-theorem bodyStep_RBody (cfg : Cfg) (c : BodyCmd) : Rel RBody (bodyStep cfg c) := by
-  cases c <;> unfold bodyStep <;> simp only [bind_eq]
-  · exact Rel.bind RBody.pre (txSet_RBody _ _ _ _ _) fun _ => emit_RBody _
-  · exact Rel.bind RBody.pre (txIncr_RBody _ _ _ _) fun _ => emit_RBody _
-  · exact Rel.bind RBody.pre (txGet_RBody _ _ _) fun _ => emit_RBody _
-  · exact Rel.bind RBody.pre (txDelete_RBody _ _ _) fun _ => emit_RBody _
-  · exact Rel.modW _ fun _ => RBody.same rfl rfl rfl
-  · exact Rel.throw RBody.pre _
-  · exact Rel.bind RBody.pre (txSetMany_RBody _ _ _ _) fun _ => emit_RBody _
-  · exact Rel.bind RBody.pre (txDelMany_RBody _ _ _) fun _ => emit_RBody _
-  · exact Rel.bind RBody.pre (txExpire_RBody _ _ _ _) fun _ => emit_RBody _
-  · exact Rel.bind RBody.pre (txSetIf_RBody _ _ _ _ _ _) fun _ => emit_RBody _
-
-theorem runBody_RBody (cfg : Cfg) (body : List BodyCmd) : Rel RBody (runBody cfg body) := by
-  induction body with
-  | nil => exact Rel.pure RBody.pre _
-  | cons c rest ih => exact Rel.bind RBody.pre (bodyStep_RBody cfg c) fun _ => ih
+/-! (the body as a whole: `bodyStep_RIn` / `runBody_RIn` below — a nested block needs the context variable) -/
 
 /-! the rollback path issues `unlock`s only -/
 
@@ -183,15 +167,17 @@ theorem txRollback_RBody (cfg : Cfg) (ts : List TxB) : Rel RBody (txRollback cfg
   rw [txRollback_snd]
   exact rollbackList_RBody cfg ts w
 
-theorem close_RBody : Rel RBody close := Rel.modW _ fun _ => RBody.same rfl rfl rfl
+theorem closeOn_RBody (o : Option Nat) : Rel RBody (closeOn o) := by
+  refine Rel.modW _ fun w => ?_
+  cases o <;> exact RBody.same rfl rfl rfl
 
 /-- leaving the block after a failed body: rollback, then `close()` -/
-theorem aexit_exc_RBody (cfg : Cfg) : Rel RBody (aexit cfg true) := by
+theorem aexitOn_exc_RBody (cfg : Cfg) (o : Option Nat) : Rel RBody (aexitOn cfg o true) := by
   intro w
-  unfold aexit
+  unfold aexitOn
   split
   · exact RBody.pre.refl w
-  · exact Rel.tryFinally RBody.pre (txRollback_RBody _ _) close_RBody w
+  · exact Rel.tryFinally RBody.pre (txRollback_RBody _ _) (closeOn_RBody o) w
 
 /-! ### `Clean`: a computation that returned normally met no failing command -/
 
@@ -343,24 +329,6 @@ theorem txExpire_Clean (cfg : Cfg) (b k ttl : Nat) : Clean cfg (txExpire cfg b k
 
 theorem emit_Clean (cfg : Cfg) (r : Reply) : Clean cfg (emit r) := Clean.modW _ fun _ => rfl
 
-theorem bodyStep_Clean (cfg : Cfg) (c : BodyCmd) : Clean cfg (bodyStep cfg c) := by
-  cases c <;> unfold bodyStep <;> simp only [bind_eq]
-  · exact Clean.bind (txSet_Clean _ _ _ _ _) fun _ => emit_Clean _ _
-  · exact Clean.bind (txIncr_Clean _ _ _ _) fun _ => emit_Clean _ _
-  · exact Clean.bind (txGet_Clean _ _ _) fun _ => emit_Clean _ _
-  · exact Clean.bind (txDelete_Clean _ _ _) fun _ => emit_Clean _ _
-  · exact Clean.modW _ fun _ => rfl
-  · exact Clean.throw _
-  · exact Clean.bind (txSetMany_Clean _ _ _ _) fun _ => emit_Clean _ _
-  · exact Clean.bind (txDelMany_Clean _ _ _) fun _ => emit_Clean _ _
-  · exact Clean.bind (txExpire_Clean _ _ _ _) fun _ => emit_Clean _ _
-  · exact Clean.bind (txSetIf_Clean _ _ _ _ _ _) fun _ => emit_Clean _ _
-
-theorem runBody_Clean (cfg : Cfg) (body : List BodyCmd) : Clean cfg (runBody cfg body) := by
-  induction body with
-  | nil => exact Clean.pure _
-  | cons c rest ih => exact Clean.bind (bodyStep_Clean cfg c) fun _ => ih
-
 /-! `Clean` on the way out: a commit / rollback that returned normally met no failing command either -/
 
 theorem Clean.tryFinally {cfg : Cfg} {α} {m : M α} {fin : M Unit} (hm : Clean cfg m) (hf : Clean cfg fin) :
@@ -495,31 +463,467 @@ theorem commitLoop_Clean (cfg : Cfg) (ts : List TxB) : Clean cfg (commitLoop cfg
       · exact h1.2 rfl i hi1 hlt
       · exact h2.2 hok i (by omega) hi2
 
-theorem close_Clean (cfg : Cfg) : Clean cfg close := Clean.modW _ fun _ => rfl
+theorem closeOn_Clean (cfg : Cfg) (o : Option Nat) : Clean cfg (closeOn o) := by
+  refine Clean.modW _ fun w => ?_
+  cases o <;> rfl
 
-theorem aexit_Clean (cfg : Cfg) (exc : Bool) : Clean cfg (aexit cfg exc) := by
+theorem aexitOn_Clean (cfg : Cfg) (o : Option Nat) (exc : Bool) : Clean cfg (aexitOn cfg o exc) := by
   intro w
-  unfold aexit
+  unfold aexitOn
   split
   · exact ⟨Nat.le_refl _, fun _ i h1 h2 => by simp only at h2; omega⟩
   · cases exc
-    · exact Clean.tryFinally (commitLoop_Clean cfg _) (close_Clean cfg) w
-    · exact Clean.tryFinally (txRollback_Clean cfg _) (close_Clean cfg) w
+    · exact Clean.tryFinally (commitLoop_Clean cfg _) (closeOn_Clean cfg o) w
+    · exact Clean.tryFinally (txRollback_Clean cfg _) (closeOn_Clean cfg o) w
 
-/-- where the block leaves the world: the body's world, then `__aexit__` with `exc_tb` set iff the body raised -/
-theorem runBlock_world (cfg : Cfg) (body : List BodyCmd) (w : FWorld) (h : w.ctx = none) :
-    (runBlock cfg body w).2 =
-      (aexit cfg (!(runBody cfg body (entered w)).1.isOk) (runBody cfg body (entered w)).2).2 := by
-  unfold runBlock
-  simp only [h]
-  generalize runBody cfg body (entered w) = p
+theorem exitOn_Clean (cfg : Cfg) (o : Option Nat) (joined exc : Bool) : Clean cfg (exitOn cfg o joined exc) := by
+  intro w
+  unfold exitOn
+  cases o with
+  | none =>
+    simp only
+    split
+    · exact ⟨Nat.le_refl _, fun _ i h1 h2 => by simp only at h2; omega⟩
+    · exact aexitOn_Clean cfg none exc w
+  | some i =>
+    simp only
+    split
+    · exact ⟨Nat.le_refl _, fun _ i h1 h2 => by simp only [putObj] at h2; omega⟩
+    · split
+      · exact aexitOn_Clean cfg (some i) exc w
+      · exact ⟨Nat.le_refl _, fun _ i h1 h2 => by simp only at h2; omega⟩
+
+theorem enterOn_counter (o : Option Nat) (w : FWorld) : (enterOn o w).2.counter = w.counter := by
+  unfold enterOn
+  cases w.ctx <;> cases o <;> rfl
+
+/-- a nested block that returned normally met no failing command: neither its body nor its `__aexit__` -/
+theorem Clean.blockOn {cfg : Cfg} (o : Option Nat) {inner : M Unit} (hin : Clean cfg inner) :
+    Clean cfg (blockOn cfg o inner) := by
+  intro w
+  unfold TxFault.blockOn
+  have h1 := hin (enterOn o w).2
+  rw [enterOn_counter] at h1
+  generalize inner (enterOn o w).2 = p at h1
   obtain ⟨r, w2⟩ := p
   cases r with
-  | ok a => rfl
+  | ok a =>
+    have h2 := exitOn_Clean cfg o (enterOn o w).1 false w2
+    simp only at h1 h2 ⊢
+    refine ⟨Nat.le_trans h1.1 h2.1, fun hok i hi1 hi2 => ?_⟩
+    by_cases hlt : i < w2.counter
+    · exact h1.2 rfl i hi1 hlt
+    · exact h2.2 hok i (by omega) hi2
+  | err e =>
+    have h2 := (exitOn_Clean cfg o (enterOn o w).1 true w2).1
+    simp only at h1 h2 ⊢
+    generalize exitOn cfg o (enterOn o w).1 true w2 = q at h2
+    obtain ⟨r', w3⟩ := q
+    cases r' <;> exact ⟨Nat.le_trans h1.1 h2, fun h => by simp [Res.isOk] at h⟩
+
+mutual
+theorem bodyStep_Clean (cfg : Cfg) : (c : BodyCmd) → Clean cfg (bodyStep cfg c)
+  | .set .. => by unfold bodyStep; exact Clean.bind (txSet_Clean _ _ _ _ _) fun _ => emit_Clean _ _
+  | .incr .. => by unfold bodyStep; exact Clean.bind (txIncr_Clean _ _ _ _) fun _ => emit_Clean _ _
+  | .get .. => by unfold bodyStep; exact Clean.bind (txGet_Clean _ _ _) fun _ => emit_Clean _ _
+  | .delete .. => by unfold bodyStep; exact Clean.bind (txDelete_Clean _ _ _) fun _ => emit_Clean _ _
+  | .adv _ => by unfold bodyStep; exact Clean.modW _ fun _ => rfl
+  | .raise => by unfold bodyStep; exact Clean.throw _
+  | .setMany .. => by unfold bodyStep; exact Clean.bind (txSetMany_Clean _ _ _ _) fun _ => emit_Clean _ _
+  | .delMany .. => by unfold bodyStep; exact Clean.bind (txDelMany_Clean _ _ _) fun _ => emit_Clean _ _
+  | .expire .. => by unfold bodyStep; exact Clean.bind (txExpire_Clean _ _ _ _) fun _ => emit_Clean _ _
+  | .setIf .. => by unfold bodyStep; exact Clean.bind (txSetIf_Clean _ _ _ _ _ _) fun _ => emit_Clean _ _
+  | .block o body => by unfold bodyStep; exact Clean.blockOn o (runBody_Clean cfg body)
+
+theorem runBody_Clean (cfg : Cfg) : (body : List BodyCmd) → Clean cfg (runBody cfg body)
+  | [] => by unfold runBody; exact Clean.pure _
+  | c :: rest => by unfold runBody; exact Clean.bind (bodyStep_Clean cfg c) fun _ => runBody_Clean cfg rest
+end
+
+/-! ### `RK`: plain commands leave the context variable set / unset as it was and do not touch the context objects -/
+
+def RK (w w' : FWorld) : Prop := w'.ctx.isSome = w.ctx.isSome ∧ w'.objs = w.objs
+
+theorem RK.pre : Pre RK := ⟨fun _ => ⟨rfl, rfl⟩, fun h1 h2 => ⟨h2.1.trans h1.1, h2.2.trans h1.2⟩⟩
+
+theorem backendCmd_RK (cfg : Cfg) (b : Nat) (c : BCmd) : Rel RK (backendCmd cfg b c) := by
+  intro w
+  cases hf : cfg.fails w.counter
+  · rw [backendCmd_ok cfg b c w hf]
+    exact ⟨by simp [applyCmd_ctx, logged], by simp [applyCmd_objs, logged]⟩
+  · rw [backendCmd_fail cfg b c w hf]
+    exact ⟨rfl, rfl⟩
+
+theorem modB_RK (b : Nat) (f : TxB → TxB) : Rel RK (modB b f) := by
+  refine Rel.modW _ fun w => ⟨?_, rfl⟩
+  simp
+
+/-- leaves of the `RK` proofs -/
+macro "rk_leaf" : tactic => `(tactic| first
+  | exact backendCmd_RK _ _ _
+  | exact modB_RK _ _
+  | exact Rel.modW _ fun _ => ⟨rfl, rfl⟩
+  | assumption)
+
+theorem lockLoop_RK (cfg : Cfg) (b lk : Nat) (n : Nat) : Rel RK (lockLoop cfg b lk n) := by
+  induction n with
+  | zero => exact Rel.throw RK.pre _
+  | succ n ih =>
+    unfold lockLoop
+    simp only [bind_eq]
+    rel_steps RK.pre
+    all_goals rk_leaf
+
+theorem lockUpdates_RK (cfg : Cfg) (b k : Nat) : Rel RK (lockUpdates cfg b k) := by
+  unfold lockUpdates
+  simp only [bind_eq, pure_eq]
+  rel_steps RK.pre
+  exact lockLoop_RK _ _ _ _
+
+theorem lockAll_RK (cfg : Cfg) (b : Nat) (ks : List Nat) : Rel RK (lockAll cfg b ks) := by
+  induction ks with
+  | nil => exact Rel.pure RK.pre _
+  | cons k rest ih =>
+    unfold lockAll
+    simp only [bind_eq]
+    exact Rel.bind RK.pre (lockUpdates_RK _ _ _) fun _ => ih
+
+/-- the rest of an `RK` proof of a facade command -/
+macro "rk_cmd" : tactic => `(tactic| (
+  simp only [bind_eq, pure_eq]
+  rel_steps RK.pre
+  all_goals first | exact lockUpdates_RK _ _ _ | exact lockAll_RK _ _ _ | rk_leaf))
+
+theorem emit_RK (r : Reply) : Rel RK (emit r) := Rel.modW _ fun _ => ⟨rfl, rfl⟩
+theorem txSet_RK (cfg : Cfg) (b k : Nat) (v : Int) (ttl : Option Nat) : Rel RK (txSet cfg b k v ttl) := by
+  unfold txSet wrap; rk_cmd
+theorem incrSeed_RK (cfg : Cfg) (b k : Nat) : Rel RK (incrSeed cfg b k) := by
+  unfold incrSeed; rk_cmd
+theorem txIncr_RK (cfg : Cfg) (b k : Nat) (ttl : Option Nat) : Rel RK (txIncr cfg b k ttl) := by
+  unfold txIncr wrap
+  simp only [bind_eq, pure_eq]
+  rel_steps RK.pre
+  all_goals first | exact lockUpdates_RK _ _ _ | exact incrSeed_RK _ _ _ | rk_leaf
+theorem txGet_RK (cfg : Cfg) (b k : Nat) : Rel RK (txGet cfg b k) := by
+  unfold txGet wrap; rk_cmd
+theorem txDelete_RK (cfg : Cfg) (b k : Nat) : Rel RK (txDelete cfg b k) := by
+  unfold txDelete wrap; rk_cmd
+theorem txSetMany_RK (cfg : Cfg) (b : Nat) (kvs : List (Nat × Int)) (ttl : Option Nat) : Rel RK (txSetMany cfg b kvs ttl) := by
+  unfold txSetMany wrap; rk_cmd
+theorem txDelMany_RK (cfg : Cfg) (b : Nat) (ks : List Nat) : Rel RK (txDelMany cfg b ks) := by
+  unfold txDelMany wrap; rk_cmd
+theorem txExpire_RK (cfg : Cfg) (b k ttl : Nat) : Rel RK (txExpire cfg b k ttl) := by
+  unfold txExpire wrap; rk_cmd
+theorem txSetIf_RK (cfg : Cfg) (b k : Nat) (v : Int) (ttl : Option Nat) (ex : Bool) : Rel RK (txSetIf cfg b k v ttl ex) := by
+  unfold txSetIf wrap; rk_cmd
+
+/-! ### `RIn`: what a body does INSIDE a transaction — nested blocks included: the task stays inside the transaction, every
+context object is left as it was found, no write reaches a backend -/
+
+theorem objOf_putObj (w : FWorld) (i j : Nat) (v : CtxObj) :
+    objOf (putObj w i v) j = if i = j then v else objOf w j := by
+  unfold objOf putObj
+  simp only [alLookup_put]
+  split <;> rfl
+
+def RIn (w w' : FWorld) : Prop :=
+  w.ctx.isSome = true → w'.ctx.isSome = true ∧ (∀ i, objOf w' i = objOf w i) ∧ RBody w w'
+
+theorem RIn.pre : Pre RIn :=
+  ⟨fun w _ => ⟨‹_›, fun _ => rfl, RBody.pre.refl w⟩,
+   fun h1 h2 h => by
+     obtain ⟨a, b, c⟩ := h1 h
+     obtain ⟨a', b', c'⟩ := h2 a
+     exact ⟨a', fun i => (b' i).trans (b i), RBody.pre.trans c c'⟩⟩
+
+theorem RIn.of {α} {m : M α} (h1 : Rel RBody m) (h2 : Rel RK m) : Rel RIn m := fun w hs =>
+  ⟨(h2 w).1.trans hs, fun i => by unfold objOf; rw [(h2 w).2], h1 w⟩
+
+/-- **a nested block inside a running transaction is transparent**: entering it bumps the `_inner` of its object (if it is a
+shared one), leaving it — normally or not — takes the bump back and does nothing else; in particular it does not commit,
+roll back, unlock or reset the context variable, whichever object it is opened on (the very object of the outermost
+block included) -/
+theorem blockOn_RIn (cfg : Cfg) (o : Option Nat) {inner : M Unit} (hin : Rel RIn inner) : Rel RIn (blockOn cfg o inner) := by
+  intro w hs
+  obtain ⟨t, ht⟩ := Option.isSome_iff_exists.1 hs
+  unfold blockOn
+  cases o with
+  | none =>
+    have he : enterOn none w = (true, w) := by simp [enterOn, ht]
+    rw [he]
+    have h1 := hin w hs
+    generalize inner w = p at h1
+    obtain ⟨r, w2⟩ := p
+    cases r <;> simp only [exitOn, if_true] <;> exact h1
+  | some i =>
+    have he : enterOn (some i) w = (true, putObj w i { objOf w i with inner := (objOf w i).inner + 1 }) := by
+      simp [enterOn, ht]
+    rw [he]
+    generalize hw1 : putObj w i { objOf w i with inner := (objOf w i).inner + 1 } = w1
+    have hs1 : w1.ctx.isSome = true := by rw [← hw1]; exact hs
+    have hb1 : RBody w w1 := by rw [← hw1]; exact RBody.same rfl rfl rfl
+    have ho1 : objOf w1 i = { objOf w i with inner := (objOf w i).inner + 1 } := by
+      rw [← hw1, objOf_putObj, if_pos rfl]
+    have ho1' : ∀ j, j ≠ i → objOf w1 j = objOf w j := by
+      intro j hj
+      rw [← hw1, objOf_putObj, if_neg (Ne.symm hj)]
+    obtain ⟨hs2, ho2, hb2⟩ := hin w1 hs1
+    -- `__aexit__`: `_inner` is not 0 — it is taken back, nothing else happens
+    have hexit : ∀ exc, exitOn cfg (some i) true exc (inner w1).2 =
+        (.ok (), putObj (inner w1).2 i { objOf (inner w1).2 i with inner := (objOf (inner w1).2 i).inner - 1 }) := by
+      intro exc
+      have : (objOf (inner w1).2 i).inner ≠ 0 := by rw [ho2 i, ho1]; simp
+      simp only [exitOn, this, ne_eq, not_false_eq_true, if_true]
+    have hfin : RIn w (putObj (inner w1).2 i { objOf (inner w1).2 i with inner := (objOf (inner w1).2 i).inner - 1 }) := by
+      intro _
+      refine ⟨hs2, fun j => ?_, RBody.pre.trans (RBody.pre.trans hb1 hb2) (RBody.same rfl rfl rfl)⟩
+      rw [objOf_putObj]
+      by_cases hj : i = j
+      · subst hj
+        rw [if_pos rfl, ho2 i, ho1]
+        simp
+      · rw [if_neg hj, ho2 j, ho1' j (Ne.symm hj)]
+    generalize hp : inner w1 = p at hexit hfin
+    obtain ⟨r, w2⟩ := p
+    cases r with
+    | ok a => simp only; rw [hexit false]; exact hfin hs
+    | err e => simp only; rw [hexit true]; exact hfin hs
+
+mutual
+theorem bodyStep_RIn (cfg : Cfg) : (c : BodyCmd) → Rel RIn (bodyStep cfg c)
+  | .set .. => by
+    unfold bodyStep
+    exact RIn.of (Rel.bind RBody.pre (txSet_RBody _ _ _ _ _) fun _ => emit_RBody _) (Rel.bind RK.pre (txSet_RK _ _ _ _ _) fun _ => emit_RK _)
+  | .incr .. => by
+    unfold bodyStep
+    exact RIn.of (Rel.bind RBody.pre (txIncr_RBody _ _ _ _) fun _ => emit_RBody _) (Rel.bind RK.pre (txIncr_RK _ _ _ _) fun _ => emit_RK _)
+  | .get .. => by
+    unfold bodyStep
+    exact RIn.of (Rel.bind RBody.pre (txGet_RBody _ _ _) fun _ => emit_RBody _) (Rel.bind RK.pre (txGet_RK _ _ _) fun _ => emit_RK _)
+  | .delete .. => by
+    unfold bodyStep
+    exact RIn.of (Rel.bind RBody.pre (txDelete_RBody _ _ _) fun _ => emit_RBody _) (Rel.bind RK.pre (txDelete_RK _ _ _) fun _ => emit_RK _)
+  | .adv _ => by
+    unfold bodyStep
+    exact RIn.of (Rel.modW _ fun _ => RBody.same rfl rfl rfl) (Rel.modW _ fun _ => ⟨rfl, rfl⟩)
+  | .raise => by
+    unfold bodyStep
+    exact Rel.throw RIn.pre _
+  | .setMany .. => by
+    unfold bodyStep
+    exact RIn.of (Rel.bind RBody.pre (txSetMany_RBody _ _ _ _) fun _ => emit_RBody _) (Rel.bind RK.pre (txSetMany_RK _ _ _ _) fun _ => emit_RK _)
+  | .delMany .. => by
+    unfold bodyStep
+    exact RIn.of (Rel.bind RBody.pre (txDelMany_RBody _ _ _) fun _ => emit_RBody _) (Rel.bind RK.pre (txDelMany_RK _ _ _) fun _ => emit_RK _)
+  | .expire .. => by
+    unfold bodyStep
+    exact RIn.of (Rel.bind RBody.pre (txExpire_RBody _ _ _ _) fun _ => emit_RBody _) (Rel.bind RK.pre (txExpire_RK _ _ _ _) fun _ => emit_RK _)
+  | .setIf .. => by
+    unfold bodyStep
+    exact RIn.of (Rel.bind RBody.pre (txSetIf_RBody _ _ _ _ _ _) fun _ => emit_RBody _) (Rel.bind RK.pre (txSetIf_RK _ _ _ _ _ _) fun _ => emit_RK _)
+  | .block o body => by
+    unfold bodyStep
+    exact blockOn_RIn cfg o (runBody_RIn cfg body)
+
+theorem runBody_RIn (cfg : Cfg) : (body : List BodyCmd) → Rel RIn (runBody cfg body)
+  | [] => by unfold runBody; exact Rel.pure RIn.pre _
+  | c :: rest => by unfold runBody; exact Rel.bind RIn.pre (bodyStep_RIn cfg c) fun _ => runBody_RIn cfg rest
+end
+
+/-! ### the outermost block -/
+
+/-- the block object is not in the middle of another use: none of its blocks is open -/
+def ObjIdle (w : FWorld) (o : Option Nat) : Prop := ∀ i, o = some i → (objOf w i).inner = 0
+
+theorem enteredOn_ctx (o : Option Nat) (w : FWorld) (h : w.ctx = none) : (enteredOn o w).ctx = some ⟨[]⟩ := by
+  unfold enteredOn enterOn
+  cases o <;> simp [h, putObj]
+
+theorem enterOn_none (o : Option Nat) (w : FWorld) (h : w.ctx = none) : (enterOn o w).1 = false := by
+  unfold enterOn
+  simp [h]
+
+theorem enteredOn_locks (o : Option Nat) (w : FWorld) : (enteredOn o w).locks = w.locks := by
+  unfold enteredOn enterOn
+  cases w.ctx <;> cases o <;> rfl
+
+theorem enteredOn_now (o : Option Nat) (w : FWorld) : (enteredOn o w).now = w.now := by
+  unfold enteredOn enterOn
+  cases w.ctx <;> cases o <;> rfl
+
+theorem enteredOn_RBody (o : Option Nat) (w : FWorld) : RBody w (enteredOn o w) := by
+  unfold enteredOn enterOn
+  cases w.ctx <;> cases o <;> exact RBody.same rfl rfl rfl
+
+/-- the body of the outermost block: the world it starts in, what it keeps -/
+theorem runBody_outer (cfg : Cfg) (o : Option Nat) (body : List BodyCmd) (w : FWorld) (h : w.ctx = none) :
+    (runBody cfg body (enteredOn o w)).2.ctx.isSome = true ∧
+    (∀ i, objOf (runBody cfg body (enteredOn o w)).2 i = objOf (enteredOn o w) i) ∧
+    RBody w (runBody cfg body (enteredOn o w)).2 := by
+  obtain ⟨a, b, c⟩ := runBody_RIn cfg body (enteredOn o w) (by rw [enteredOn_ctx o w h]; rfl)
+  exact ⟨a, b, RBody.pre.trans (enteredOn_RBody o w) c⟩
+
+/-- **the `__aexit__` of the outermost block finishes the transaction**: whatever blocks the body opened and left in
+between (on other objects, on this very object), when the outermost block of an idle object is left its `_inner` is 0 and
+its `_tx` is set, so it commits / rolls back and closes -/
+theorem exitOn_outer (cfg : Cfg) (o : Option Nat) (body : List BodyCmd) (w : FWorld) (h : w.ctx = none)
+    (hidle : ObjIdle w o) (exc : Bool) :
+    exitOn cfg o (enterOn o w).1 exc (runBody cfg body (enteredOn o w)).2 =
+      aexitOn cfg o exc (runBody cfg body (enteredOn o w)).2 := by
+  obtain ⟨_, hobj, _⟩ := runBody_outer cfg o body w h
+  unfold exitOn
+  cases o with
+  | none => simp [enterOn_none none w h]
+  | some i =>
+    have : objOf (enteredOn (some i) w) i = { objOf w i with tx := true } := by
+      unfold enteredOn enterOn
+      simp only [h]
+      show objOf ({ putObj w i _ with ctx := _ }) i = _
+      have : ∀ v, objOf ({ putObj w i v with ctx := some ⟨[]⟩ }) i = v := by
+        intro v
+        have := objOf_putObj w i i v
+        rw [if_pos rfl] at this
+        exact this
+      exact this _
+    simp only [hobj i, this, hidle i rfl, ne_eq, not_true_eq_false, if_false, if_true]
+
+/-- where the outermost block leaves the world: the body's world, then commit / rollback (`exc_tb` set iff the body raised)
+and `close()` -/
+theorem runBlockOn_world (cfg : Cfg) (o : Option Nat) (body : List BodyCmd) (w : FWorld) (h : w.ctx = none)
+    (hidle : ObjIdle w o) :
+    (runBlockOn cfg o body w).2 =
+      (aexitOn cfg o (!(runBody cfg body (enteredOn o w)).1.isOk) (runBody cfg body (enteredOn o w)).2).2 := by
+  have hx := exitOn_outer cfg o body w h hidle
+  unfold runBlockOn blockOn
+  change (match runBody cfg body (enteredOn o w) with
+    | (.ok _, w2) => exitOn cfg o (enterOn o w).1 false w2
+    | (.err e, w2) =>
+      match exitOn cfg o (enterOn o w).1 true w2 with
+      | (.ok _, w3) => (.err e, w3)
+      | (.err e', w3) => (.err e', w3)).2 = _
+  generalize runBody cfg body (enteredOn o w) = p at hx
+  obtain ⟨r, w2⟩ := p
+  cases r with
+  | ok a => simp only [Res.isOk, Bool.not_true]; rw [hx false]
   | err e =>
     simp only [Res.isOk, Bool.not_false]
-    generalize aexit cfg true w2 = q
+    rw [hx true]
+    generalize aexitOn cfg o true w2 = q
     obtain ⟨r', w3⟩ := q
     cases r' <;> rfl
+
+/-- … and what the caller sees -/
+theorem runBlockOn_res (cfg : Cfg) (o : Option Nat) (body : List BodyCmd) (w : FWorld) (h : w.ctx = none)
+    (hidle : ObjIdle w o) :
+    runBlockOn cfg o body w =
+      match runBody cfg body (enteredOn o w) with
+      | (.ok _, w2) => aexitOn cfg o false w2
+      | (.err e, w2) =>
+        match aexitOn cfg o true w2 with
+        | (.ok _, w3) => (.err e, w3)
+        | (.err e', w3) => (.err e', w3) := by
+  have hx := exitOn_outer cfg o body w h hidle
+  unfold runBlockOn blockOn
+  change (match runBody cfg body (enteredOn o w) with
+    | (.ok _, w2) => exitOn cfg o (enterOn o w).1 false w2
+    | (.err e, w2) =>
+      match exitOn cfg o (enterOn o w).1 true w2 with
+      | (.ok _, w3) => (.err e, w3)
+      | (.err e', w3) => (.err e', w3)) = _
+  generalize runBody cfg body (enteredOn o w) = p at hx
+  obtain ⟨r, w2⟩ := p
+  cases r with
+  | ok a => simp only; rw [hx false]
+  | err e => simp only; rw [hx true]
+
+/-! ### commit / rollback do not touch the context objects either -/
+
+theorem gatherUnlock_RK (cfg : Cfg) (b : Nat) (ls : List Nat) : Rel RK (gatherUnlock cfg b ls) := by
+  induction ls with
+  | nil => exact Rel.pure RK.pre _
+  | cons lk rest ih =>
+    intro w
+    rw [gatherUnlock_snd]
+    exact RK.pre.trans (backendCmd_RK cfg b (.unlock lk) w) (ih _)
+
+theorem runCmds_RK (cfg : Cfg) (b : Nat) (cs : List BCmd) : Rel RK (runCmds cfg b cs) := by
+  induction cs with
+  | nil => exact Rel.pure RK.pre _
+  | cons c rest ih =>
+    unfold runCmds
+    simp only [bind_eq]
+    exact Rel.bind RK.pre (backendCmd_RK cfg b c) fun _ => ih
+
+theorem commitOne_RK (cfg : Cfg) (t : TxB) : Rel RK (commitOne cfg t) := by
+  refine Rel.tryFinally RK.pre ?_ (gatherUnlock_RK _ _ _)
+  unfold baseCommit
+  simp only [bind_eq]
+  exact Rel.bind RK.pre (Rel.getW RK.pre) fun _ => runCmds_RK _ _ _
+
+theorem rollbackOne_RK (cfg : Cfg) (t : TxB) : Rel RK (rollbackOne cfg t) :=
+  Rel.tryFinally RK.pre (Rel.pure RK.pre _) (gatherUnlock_RK _ _ _)
+
+theorem rollbackList_RK (cfg : Cfg) (ts : List TxB) (w : FWorld) : RK w (rollbackList cfg ts w).2 := by
+  induction ts generalizing w with
+  | nil => exact RK.pre.refl w
+  | cons t rest ih =>
+    rcases rollbackList_snd cfg t rest w with h | ⟨h, _⟩ <;> rw [h]
+    · exact RK.pre.trans (rollbackOne_RK cfg t w) (ih _)
+    · exact rollbackOne_RK cfg t w
+
+theorem commitLoop_RK (cfg : Cfg) (ts : List TxB) (w : FWorld) : RK w (commitLoop cfg ts w).2 := by
+  induction ts generalizing w with
+  | nil => exact RK.pre.refl w
+  | cons t rest ih =>
+    rcases commitLoop_snd cfg t rest w with h | h <;> rw [h]
+    · exact RK.pre.trans (commitOne_RK cfg t w) (ih _)
+    · exact RK.pre.trans (commitOne_RK cfg t w) (rollbackList_RK cfg rest _)
+
+/-- the fields of every context object once the outermost block of object `o` has been left: `o` is as constructed again
+(`_tx = None`; its `_inner` was 0 and still is), every other object is untouched -/
+theorem runBlockOn_objs (cfg : Cfg) (o : Option Nat) (body : List BodyCmd) (w : FWorld) (h : w.ctx = none)
+    (hidle : ObjIdle w o) (i : Nat) :
+    objOf (runBlockOn cfg o body w).2 i = if o = some i then { objOf w i with tx := false } else objOf w i := by
+  rw [runBlockOn_world cfg o body w h hidle]
+  obtain ⟨hs, hobj, _⟩ := runBody_outer cfg o body w h
+  generalize (runBody cfg body (enteredOn o w)).2 = w2 at hs hobj
+  generalize (!(runBody cfg body (enteredOn o w)).1.isOk) = exc
+  obtain ⟨tx, htx⟩ := Option.isSome_iff_exists.1 hs
+  unfold aexitOn
+  simp only [htx]
+  rw [tryFinally_snd]
+  have hk : RK w2 ((if exc = true then txRollback cfg tx.backs else commitLoop cfg tx.backs) w2).2 := by
+    cases exc
+    · exact commitLoop_RK cfg tx.backs w2
+    · simp only [if_true]; rw [txRollback_snd]; exact rollbackList_RK cfg tx.backs w2
+  generalize ((if exc = true then txRollback cfg tx.backs else commitLoop cfg tx.backs) w2).2 = w3 at hk
+  have h3 : ∀ j, objOf w3 j = objOf (enteredOn o w) j := fun j => by
+    rw [← hobj j]; unfold objOf; rw [hk.2]
+  have hent : ∀ j, objOf (enteredOn o w) j = match o with
+      | none => objOf w j
+      | some k => if k = j then { objOf w k with tx := true } else objOf w j := by
+    intro j
+    unfold enteredOn enterOn
+    simp only [h]
+    cases o with
+    | none => rfl
+    | some k => exact objOf_putObj w k j _
+  cases o with
+  | none =>
+    simp only [closeOn, modW, reduceCtorEq, if_false]
+    show objOf { w3 with ctx := none } i = _
+    exact (h3 i).trans (hent i)
+  | some k =>
+    simp only [closeOn, modW, Option.some.injEq]
+    show objOf { putObj w3 k { objOf w3 k with tx := false } with ctx := none } i = _
+    have : objOf { putObj w3 k { objOf w3 k with tx := false } with ctx := none } i =
+        if k = i then { objOf w3 k with tx := false } else objOf w3 i := objOf_putObj w3 k i _
+    rw [this]
+    by_cases hki : k = i
+    · subst hki
+      rw [if_pos rfl, if_pos rfl, h3 k, hent k]
+      simp
+    · rw [if_neg hki, if_neg hki, h3 i, hent i]
+      simp [hki]
 
 end CashewsVerif.TxFault
